@@ -842,22 +842,22 @@ void OPNMIDIplay::realTime_BankChangeLSB(uint8_t channel, uint8_t lsb)
 {
     if(static_cast<size_t>(channel) >= m_midiChannels.size())
         channel = channel % 16;
-    m_midiChannels[channel].bank_lsb = lsb;
+    realTime_Controller(channel, 32, lsb); // Documented as an alias of CC-32: also keeps the XG percussion flag in step
 }
 
 void OPNMIDIplay::realTime_BankChangeMSB(uint8_t channel, uint8_t msb)
 {
     if(static_cast<size_t>(channel) >= m_midiChannels.size())
         channel = channel % 16;
-    m_midiChannels[channel].bank_msb = msb;
+    realTime_Controller(channel, 0, msb); // Documented as an alias of CC-0
 }
 
 void OPNMIDIplay::realTime_BankChange(uint8_t channel, uint16_t bank)
 {
     if(static_cast<size_t>(channel) >= m_midiChannels.size())
         channel = channel % 16;
-    m_midiChannels[channel].bank_lsb = uint8_t(bank & 0xFF);
-    m_midiChannels[channel].bank_msb = uint8_t((bank >> 8) & 0xFF);
+    realTime_Controller(channel, 0, uint8_t((bank >> 8) & 0xFF));
+    realTime_Controller(channel, 32, uint8_t(bank & 0xFF));
 }
 
 void OPNMIDIplay::setDeviceId(uint8_t id)
